@@ -681,51 +681,81 @@ def r_seed(ctx) -> RuleResult:
     return res
 
 
-def _header_timestamp_ok(ctx, origin) -> tuple[bool, str]:
-    """the clock value may reach the output only as part of the 2nd line of the header block:
-    in its function it flows into exactly one `<lines>.append(...)`, that append is the second
-    straight-line append to the list parameter, and the function is the first thing called on
-    the freshly created list in the public writer."""
+def _header_timestamp_ok(ctx, origin) -> tuple[Optional[bool], str]:
+    """The clock value may reach the output only as part of the 2nd line of the header block: in its function it flows
+    into exactly one emitted line (an append to the list parameter or a yield, at the top level of the function), that
+    emission is the second one, and the function is the first tucan function the public writer calls.
+    Returns (True, why) / (False, why) / (None, why) when the emitting code is not of a form this rule reads."""
     src, fi, node = origin
     fn = fi.node
     params = params_of(fn)
-    if not params:
-        return False, "clock read outside a line-emitting helper"
-    lst = params[0]
-    appends = []
+    is_gen = any(isinstance(x, (ast.Yield, ast.YieldFrom)) for x in own_walk(fn))
+    lst = params[0] if params else None
+    emits = []
     for st in fn.body:
         for n in own_walk(st):
-            if isinstance(n, ast.Call) and isinstance(n.func, ast.Attribute) and n.func.attr == "append" \
-                    and isinstance(n.func.value, ast.Name) and n.func.value.id == lst:
+            app = isinstance(n, ast.Call) and isinstance(n.func, ast.Attribute) and n.func.attr == "append" and isinstance(n.func.value, ast.Name) \
+                and lst is not None and n.func.value.id == lst
+            yld = isinstance(n, ast.Yield)
+            if app or yld:
                 if not isinstance(st, ast.Expr):
-                    return False, "header lines are appended under control flow"
-                appends.append(n)
-    hit = [i for i, a in enumerate(appends) if any(x is node for x in ast.walk(a))]
+                    return None, "header lines are emitted under control flow"
+                emits.append(n)
+            if isinstance(n, ast.YieldFrom) or (isinstance(n, ast.Call) and isinstance(n.func, ast.Attribute) and n.func.attr in ("extend", "insert")
+                                                  and isinstance(n.func.value, ast.Name) and n.func.value.id == lst):
+                return None, "header lines are emitted in bulk"
+    if not emits:
+        # a list literal returned whole:  return [name, f"..{clock}..", "", version]
+        rets = [r for r in own_walk(fn) if isinstance(r, ast.Return) and isinstance(r.value, (ast.List, ast.Tuple))]
+        if len(rets) == 1 and rets[0] in fn.body:
+            emits = list(rets[0].value.elts)
+        else:
+            return None, "clock read outside a line-emitting helper"
+    hit = [i for i, a in enumerate(emits) if any(x is node for x in ast.walk(a))]
     if len(hit) != 1:
-        return False, "clock value does not flow directly into exactly one appended line"
-    # any other use of a variable tainted by the clock?
-    flow = NondetFlow(ctx)
-    t = flow.summary(fi).get("tainted", {})
-    others = [k for k, v in t.items() if k != lst and any(o[2] is node for o in v)]
+        # the clock may pass through a local first:  now = datetime.now(); lines.append(f"..{now:%m%d}..")
+        flow0 = NondetFlow(ctx)
+        t0 = flow0.summary(fi).get("tainted", {})
+        carriers = {k for k, v in t0.items() if any(o[2] is node for o in v)} - {lst}
+        hit = [i for i, a in enumerate(emits) if any(isinstance(x, ast.Name) and x.id in carriers for x in ast.walk(a))]
+        if len(hit) != 1:
+            return (False if len(hit) > 1 else None), "clock value does not flow into exactly one emitted header line"
+        others = []
+    else:
+        # any other use of a variable tainted by the clock?
+        flow = NondetFlow(ctx)
+        t = flow.summary(fi).get("tainted", {})
+        others = [k for k, v in t.items() if k != lst and any(o[2] is node for o in v)]
     if others:
         return False, f"clock value is also stored in {others}"
     if hit[0] != 1:
         return False, f"clock value is in header line {hit[0] + 1}, the format's timestamp field is in line 2"
     w = entry(ctx, "write")
-    # in the writer: list created empty, this helper is the first statement using it
-    first_use = None
-    for st in w.node.body:
-        if isinstance(st, (ast.Assign, ast.AnnAssign)):
-            continue
-        if isinstance(st, ast.Expr) and isinstance(st.value, ast.Constant):
-            continue
-        first_use = st
-        break
-    if not (isinstance(first_use, ast.Expr) and isinstance(first_use.value, ast.Call)):
-        return False, "writer does not start with the header helper"
-    cs = ctx.cg.resolve_call(w, first_use.value, ctx.cg.local_types(w), set(params_of(w.node)))
-    if not (cs.kind == "tucan" and cs.target.fq == fi.fq):
-        return False, "header helper is not the first call of the writer"
+    # in the writer: this helper is the first tucan function called, outside any loop or branch
+    calls = sorted((cs for cs in sites(ctx, w) if cs.kind == "tucan"), key=lambda cs: (cs.node.lineno, cs.node.col_offset))
+    if fi.fq == w.fq:
+        return None, "header written inline in the writer"
+    # evaluation order: arguments of a call come before the call itself; take the innermost-first order
+    def eval_key(cs):
+        return (cs.node.end_lineno, cs.node.end_col_offset)
+    first = None
+    for cs in sorted(calls, key=lambda c: (c.node.lineno, c.node.col_offset)):
+        inner = [c2 for c2 in calls if c2 is not cs and any(x is c2.node for x in ast.walk(cs.node))]
+        if not inner:
+            first = cs
+            break
+    if first is None:
+        return None, "writer calls no helper"
+    if first.target.fq != fi.fq:
+        # the header helper may itself be wrapped:  lines.extend(_header_lines())
+        return (False if any(cs.target.fq == fi.fq for cs in calls) else None), "header helper is not the first call of the writer"
+    from .common import parent_map
+    pm = parent_map(w.node)
+    cur = pm.get(first.node)
+    while cur is not None and cur is not w.node:
+        if isinstance(cur, (ast.For, ast.While, ast.If, ast.Try, ast.ListComp, ast.GeneratorExp)):
+            return None, "header helper is called under control flow"
+        cur = pm.get(cur)
     return True, "timestamp confined to header line 2"
 
 
@@ -759,6 +789,8 @@ def r_nondet(ctx) -> RuleResult:
             if key == "write" and src in CLOCK:
                 ok, why = _header_timestamp_ok(ctx, o)
                 accepted = why if ok else None
+                if ok is None:
+                    raise AnalysisError(f"R-NONDET: a clock value reaches the written molfile; whether it stays inside the header timestamp cannot be read off the code ({why}, {ofi.qualname})")
                 if not ok:
                     res.fail(Finding("R-NONDET", ofi.module.rel, ofi.qualname, norm(node),
                                      f"clock value reaches the written molfile outside the header timestamp ({why})",
